@@ -127,7 +127,7 @@ def random_task(rng, kind, seed):
     step = float(rng.choice([0.3 * dt, dt, 0.1, 1.0, 10 * span + 1, dt * (1 + 1e-12), 2.5 * dt, dt / 7]))
     alt = bool(rng.rand() < 0.5)
     with_baro(rng, meas, alt)
-    models = str(rng.choice(["none", "default", "bias", "full", "asym"]))
+    models = str(rng.choice(["none", "default", "bias", "full", "asym", "tiny"]))
     t = dict(kind=kind, start=pts[0], imu=pts[1:] if kind == "fb" else pts, meas=meas, step=step, alt=alt,
              models=models, form=str(rng.choice(["list", "none", "empty"])), seed=int(seed),
              vd0=float(rng.choice([0.0, 3.0, -1.5])) if not alt else float(rng.choice([0.0, 0.5])),
@@ -148,7 +148,7 @@ def task_from_cfg(kind, cfg, seed, rng):
     meas = [[str(names[s]), [TICK * t for t in sorted(cfg["meas"][s])]] for s in range(ns)]
     alt = bool(rng.rand() < 0.5)
     with_baro(rng, meas, alt)
-    models = str(rng.choice(["none", "default", "bias", "full", "asym"]))
+    models = str(rng.choice(["none", "default", "bias", "full", "asym", "tiny"]))
     return dict(kind=kind, start=TICK * pts[0], imu=[TICK * t for t in (pts[1:] if kind == "fb" else pts)], meas=meas,
                 step=TICK * step, alt=alt, models=models, form=str(rng.choice(["list", "none", "empty"])), seed=int(seed),
                 vd0=float(rng.choice([0.0, 3.0])) if not alt else 0.0, inc=bool(models in ("full", "asym") or rng.rand() < 0.4), far=bool(rng.rand() < 0.25), shuffle=bool(rng.rand() < 0.5), intidx=bool(rng.rand() < 0.3), perm=bool(rng.rand() < 0.25), rerun=bool(rng.rand() < 0.25))
